@@ -203,10 +203,11 @@ def is_catch_all(alt):
 # formulas
 
 class Atom:
-    __slots__ = ("kind", "scruts", "alts", "op", "l", "r", "node", "frame")
+    __slots__ = ("kind", "scruts", "alts", "op", "l", "r", "node", "frame", "pats")
 
     def __init__(self, kind, **kw):
         self.kind = kind
+        self.pats = kw.get("pats")      # `is` atoms: the pattern nodes the alternatives were read from
         self.scruts = kw.get("scruts")
         self.alts = kw.get("alts")
         self.op = kw.get("op")
@@ -735,9 +736,9 @@ class Sem:
                     alts2.append(tuple("_" for _ in comps))
                 else:
                     alts2.append(a + tuple("_" for _ in range(len(comps) - len(a))))
-            return F_atom(Atom("is", scruts=comps, alts=alts2, frame=frame))
+            return F_atom(Atom("is", scruts=comps, alts=alts2, frame=frame, pats=list(pats)))
         alts = [a if len(a) == 1 else ("(" + ",".join(a) + ")",) for a in alts]
-        return F_atom(Atom("is", scruts=[Val(strip(sc), frame)], alts=alts, frame=frame))
+        return F_atom(Atom("is", scruts=[Val(strip(sc), frame)], alts=alts, frame=frame, pats=list(pats)))
 
     def _is_of_branches(self, vn, heads, frame, depth):
         branches = []     # (condition formula, ctor head or None when it diverges)
@@ -1552,6 +1553,14 @@ def passes_through(S, node, frame, target, limit=40):
             continue
         if k in ("Field", "Index", "Cast") or (k == "Unary" and n.get("op") == "Deref"):
             node = n["e"]
+            continue
+        if k == "Match" and not is_try(n):
+            # a value chosen by a match (e.g. the tail of a helper): it derives from the target if one of the arms' values does
+            return any(passes_through(S, a["body"], frame, target, limit // 2) for a in n["arms"] if not diverges(a["body"]))
+        if k == "If" and "else" in n:
+            return any(passes_through(S, x, frame, target, limit // 2) for x in (n["then"], n["else"]) if not diverges(x))
+        if k == "Block" and n.get("expr") is not None:
+            node = n["expr"]
             continue
         b = S.lookup(n, frame)
         if b is None or b.expr is None:
